@@ -120,6 +120,12 @@ def run(chk):
         if m and (m['wrapper'] != m['expected'] or m['seed'] != m['expected']):
             chk.violation('C07:mode-not-kept', 'model passed in %s mode, wrapper.training=%s seed.training=%s'
                           % ('train' if m['expected'] else 'eval', m['wrapper'], m['seed']), cid)
+        if m and m.get('modules_off') and m['wrapper'] == m['expected']:
+            chk.violation('C07:mode-not-kept:submodules', 'model passed in %s mode, the wrapper reports that mode, but these modules of '
+                          'it are in the other one: %s' % ('train' if m['expected'] else 'eval', m['modules_off']), cid)
+        if r.get('import_diff_as_returned') and not r.get('import_diff'):
+            chk.violation('C07:import-changes-function:as-returned', 'model passed in eval mode: the wrapper as returned by PIT() (which '
+                          'reports eval mode) differs from the model: %s; after .eval() it agrees' % r['import_diff_as_returned'], cid)
         for a, head, rows in assigns:
             if 'err' in head or not a.get('assign_done'):
                 continue
@@ -154,6 +160,11 @@ def run(chk):
                           'PIT(model, autoconvert_layers=False, fold_bn=%s) differs from the model by %s' % (o['fold_bn'], o['import_diff']), case)
         elif o['export0_diff'] is not None:
             chk.violation('C07:autoconvert-off:export-at-once-changes-function', 'export() right after import differs by %s' % o['export0_diff'], case)
+        if o.get('user_output_changed') is not None:
+            chk.violation('C07:autoconvert-off:user-model-altered:bn-fused-into-shared-layer',
+                          'autoconvert_layers=False: the outputs of the model object the user passed in change by %.3g after the '
+                          'conversion (a user-placed PIT layer is shared with the wrapper; the BatchNorm that follows it is fused '
+                          'into it in place, so the user\'s own forward applies it twice)' % o['user_output_changed'], case)
     outs = common.pmap(_supernet_case, [chk.rng.randint(0, 1 << 30) for _ in range(12 if chk.quick else 200)])
     for o in outs:
         case = {'kind': 'supernet', 'seed': o['seed']}
